@@ -59,6 +59,63 @@ fn gen_url(r: &mut Rng, host: &str, path: &str) -> String {
     u
 }
 
+/// Do the type options of a removeparam rule, read from its text, admit this request type?
+/// (no positive type: document, subdocument and xhr; otherwise exactly the positive ones; negated
+/// types never)
+fn admits(line: &str, ty: &str) -> bool {
+    let canon = |t: &str| match t {
+        "xhr" | "xmlhttprequest" => "xmlhttprequest",
+        "subdocument" | "frame" | "sub_frame" => "subdocument",
+        "document" | "doc" | "main_frame" => "document",
+        "script" => "script",
+        "image" => "image",
+        _ => "other",
+    };
+    let opts = line.rsplit_once('$').map(|x| x.1).unwrap_or("");
+    let (mut pos, mut neg) = (vec![], vec![]);
+    for o in opts.split(',') {
+        let (n, name) = match o.strip_prefix('~') {
+            Some(x) => (true, x),
+            None => (false, o),
+        };
+        if matches!(name, "document" | "xhr" | "xmlhttprequest" | "subdocument" | "script" | "image") {
+            if n { neg.push(canon(name)) } else { pos.push(canon(name)) }
+        }
+    }
+    let t = canon(ty);
+    if neg.contains(&t) {
+        return false;
+    }
+    if pos.is_empty() {
+        matches!(t, "document" | "subdocument" | "xmlhttprequest")
+    } else {
+        pos.contains(&t)
+    }
+}
+
+/// Keys of the query pieces present in `url` and missing from `out` (multiset difference).
+fn removed_keys(url: &str, out: &str) -> Vec<String> {
+    let q = |u: &str| -> Vec<String> {
+        let head = u.split('#').next().unwrap_or("");
+        match head.split_once('?') {
+            Some((_, q)) => q.split('&').map(|s| s.to_string()).collect(),
+            None => vec![],
+        }
+    };
+    let mut rest = q(out);
+    let mut gone = vec![];
+    for piece in q(url) {
+        match rest.iter().position(|x| *x == piece) {
+            Some(i) => {
+                rest.remove(i);
+            }
+            None if piece.is_empty() => {} // an empty piece vanishes together with the `?`
+            None => gone.push(piece.split('=').next().unwrap_or("").to_string()),
+        }
+    }
+    gone
+}
+
 fn gen_rules(r: &mut Rng, host: &str, path_tok: &str) -> Vec<String> {
     let n = 1 + r.below(5);
     let mut rules = vec![];
@@ -74,6 +131,15 @@ fn gen_rules(r: &mut Rng, host: &str, path_tok: &str) -> Vec<String> {
         let mut opts = vec![format!("removeparam={}", r.ps(&["ad", "foo", "x1", "utm_source", "fbclid", "a-b", "Ad", "a"]))];
         if r.chance(1, 4) {
             opts.push(r.ps(&["document", "xhr", "subdocument", "script", "~xhr", "image", "third-party", "~third-party"]).into());
+        }
+        if r.chance(1, 6) {
+            // positive and negated type options together
+            let t = r.ps(&["document", "xhr", "subdocument", "script", "image"]);
+            let n = r.ps(&["~xhr", "~subdocument", "~image", "~script", "~document"]);
+            if !opts.iter().any(|o| o.trim_start_matches('~') == t || o == n || o.trim_start_matches('~') == n.trim_start_matches('~')) && t != n.trim_start_matches('~') {
+                opts.push(t.into());
+                opts.push(n.into());
+            }
         }
         if r.chance(1, 6) {
             opts.push(format!("domain={}", r.ps(gen::HOSTS)));
@@ -150,6 +216,16 @@ pub fn run(ctx: &mut Ctx) {
                     }
                     if a.important {
                         sigs.push("C14:rewrite-reported-for-important-block".into());
+                    }
+                    // every removed parameter needs a rule naming it whose type options, read
+                    // from the rule text, admit this request type
+                    for k in removed_keys(&url, out_url) {
+                        let named = rules.iter().any(|l| {
+                            l.rsplit_once('$').map(|x| x.1.split(',').any(|o| o == format!("removeparam={}", k))).unwrap_or(false) && admits(l, ty)
+                        });
+                        if !named {
+                            sigs.push("C14:parameter-removed-without-a-rule-admitting-this-request-type".into());
+                        }
                     }
                 }
                 let h = fnv(&format!("{:?}|{}|{}|{}", rules, url, source, ty));
